@@ -52,14 +52,19 @@ def beats (n : Nat) (start : Nat) : G (List Rat) := do
   let k ← below (n + 1)
   let mut out := []
   let mut cur := start
+  let atStart ← below 3
+  let mut first := true
   for _ in [0:k] do
-    cur := cur + 1 + (← below 96)
+    -- the first event sits on beat `start` itself one time in three (events on beat 0 are where the clamps matter)
+    let step ← below 96
+    cur := if first && atStart = 0 then cur else cur + 1 + step
+    first := false
     out := ((cur : Rat) / 48) :: out
   pure out.reverse
 
 def timingData : G TimingData := do
   let b0 ← posRat
-  let bs ← beats 3 0
+  let bs ← beats 3 1
   let bpms ← bs.mapM fun b => do pure (b, ← posRat)
   let stops ← (← beats 3 0).mapM fun b => do pure (b, ← posRat)
   let delays ← (← beats 2 0).mapM fun b => do pure (b, ← posRat)
